@@ -13,7 +13,7 @@ INFO = {
                    "built from the same expression as the proof layout (client, server and decoder agree on "
                    "proof_length); unpack_proof{,_mut} refuse a wrong length before splitting; constructor guards; "
                    "verifier-share and state codec field order. Acceptance of exactly the 0/1 vectors (algebra over the "
-                   "32-bit field) is NOT decided.",
+                   "32-bit field) is NOT decided. The verification message is (f(r), g(r) over the n-point prefix, h(r) over the whole 2n buffer) at the query point, the role and the query point are bound to the aggregator id / verification key / nonce, and the collector refuses only what merge refuses.",
     "trusted_base": ["rustc type checker and MIR construction (nightly)", "expression reconstruction (sa/expr.py)"],
     "assumptions": ["field arithmetic and NTT are correct (C09/C10 not decided)"],
 }
